@@ -198,7 +198,7 @@ def run(rep, tier):
         vs = [c09.to_cfg(c, est_n=4, post_checks=('vf.props._hist:check_tiling',)) for c in c09.ball(1) if c['limiter'] in ('none', 'all') and c['K'] == 1]
         bound = 2
     else:
-        vs = [c09.to_cfg(c, post_checks=('vf.props._hist:check_tiling',)) for c in c09.ball(1, Ps=(1, 2, 3, 4))]
+        vs = [c09.to_cfg(c, post_checks=('vf.props._hist:check_tiling',), **({'est_n': 4} if c['limiter'] == 'rel_min_slope' else {})) for c in c09.ball(1, Ps=(1, 2, 3, 4))]
         bound = 2
     vs += [c09.cfg(P=P, adaptive=None, restart_script=True, restarting={'max_restarts': 2, 'restart_from_first_step': ff}, post_checks=('vf.props._hist:check_tiling',)) for P in (2, 3) for ff in (False, True)]
     # a detector that raises the restart flag in any convergence check, possibly while the step's predecessor still iterates
